@@ -17,7 +17,7 @@ EXPLANATION = (
     "equals the header bytes flush_block writes (block tag 1 + u16 length 2) and finish writes one end tag; (R07.4) key-values "
     "are taken above the announced start version, sorted by version, only under their own accepted member header, and after "
     "the first refusal nothing else is added (the only continuation is finish + return); (R07.5) members in the exclusion set "
-    "are never offered.")
+    "are never offered; (R07.6 = C08/R08.3) the lengths the bound is computed from (serialized_len) equal the bytes serialize writes.")
 TRUSTED = ["zstd::bulk::compress_to_buffer writes at most the destination length (= input length); BTreeMap/itertools sort semantics"]
 ASSUMPTIONS = ["an appended item crosses at most one block boundary, or the closed blocks compress enough to pay for their 3-byte "
                "headers (an item may be up to four thresholds long; cannot be decided statically)",
